@@ -460,17 +460,17 @@ class Verdict:
         if self.violations:
             rdir = os.path.join(VERIF, "evidence", "replays")
             os.makedirs(rdir, exist_ok=True)
-            seen = set()
+            seen = collections.Counter()
             for i, (k, text, replay) in enumerate(self.violations):
-                if k in seen and i > 20:
+                seen[k] += 1
+                if seen[k] > 3:
                     continue
-                seen.add(k)
                 path = os.path.join(rdir, "%s-%s-%d.json" % (self.pid, re.sub(r"[^A-Za-z0-9_.-]", "_", k)[:60], i))
                 with open(path, "w") as f:
                     json.dump({"property": self.pid, "key": k, "text": text, "replay": replay}, f, indent=1)
                 print("VIOLATION property=%s replay=%s" % (self.pid, path))
                 print("  key=%s %s" % (k, text))
-                if i >= 20:
+                if sum(min(c, 3) for c in seen.values()) >= 30:
                     break
             return EXIT_VIOLATION
         print("OK property=%s tier=%s seed=%d wall=%.1fs" % (self.pid, self.tier, self.seed, time.time() - self.t0))
